@@ -427,6 +427,10 @@ class SimSocket(socket.socket):
         if self._type == socket.SOCK_STREAM:
             if not self.connected and self.tx_pipe is None:
                 raise _oserr(errno.ENOTCONN)
+            if self.rx_pipe is not None and self.rx_pipe.was_reset:
+                # the peer's reset has arrived: the connection is gone as far as shutdown() is concerned (Linux TCP;
+                # conformance self-test s04d)
+                raise _oserr(errno.ENOTCONN)
             if how in (socket.SHUT_WR, socket.SHUT_RDWR) and not self.wr_shutdown:
                 self.wr_shutdown = True
                 if self.tx_pipe is not None:
